@@ -454,6 +454,9 @@ func run(sel int, in []int64) []int64 {
 	if sel == 6 || sel == 7 {
 		return pubRun(in, sel == 7)
 	}
+	if sel == 8 {
+		return opsRun(in)
+	}
 	if sel < 1 || sel > 4 {
 		panic(fmt.Sprintf("harness: unknown selector %d", sel))
 	}
@@ -496,6 +499,10 @@ func laws(sel int, in, got []int64, law func(lsel int, lin []int64, sig string))
 	}
 	if sel == 6 || sel == 7 {
 		pubLaws(in, sel == 7, law)
+		return
+	}
+	if sel == 8 {
+		opsLaws(in, law)
 		return
 	}
 	o := outcomeOf(in)
@@ -860,7 +867,8 @@ type genCase struct {
 	id, kind string
 	sel      int
 	in       *input
-	hist     *histT // selector 5 only
+	hist     *histT    // selectors 5-7
+	ops      *opsHistT // selector 8
 	toks     []int64
 }
 
@@ -938,7 +946,7 @@ func gen(rng *vh.Rng, n int, emit func(id string, sel int, in []int64, kind stri
 	if os.Getenv("C17_OLD_BATCHED") == "1" {
 		sel = 2 // development aid: compare a pre-fix worktree with the model of the pre-fix batched path
 	}
-	kinds := []string{"small", "threshold", "large", "history", "malformed", "near-tie", "large", "publish"}
+	kinds := []string{"small", "threshold", "large", "history", "malformed", "near-tie", "large", "publish", "publish-ops"}
 	var cases []genCase
 	rejected := 0
 	// fixed cases first: the F6 witnesses
@@ -990,6 +998,10 @@ func gen(rng *vh.Rng, n int, emit func(id string, sel int, in []int64, kind stri
 			cases = append(cases, genCase{id: fmt.Sprintf("g%d", i), kind: kind, sel: 5, hist: genHistory(r)})
 			continue
 		}
+		if kind == "publish-ops" {
+			cases = append(cases, genCase{id: fmt.Sprintf("g%d", i), kind: kind, sel: 8, ops: genOpsHistory(r)})
+			continue
+		}
 		if kind == "publish" {
 			psel := 6
 			if r.Chance(1, 3) {
@@ -1019,9 +1031,11 @@ func gen(rng *vh.Rng, n int, emit func(id string, sel int, in []int64, kind stri
 		cases = append(cases, genCase{id: fmt.Sprintf("g%d", i), kind: kind, sel: sel, in: in})
 	}
 	// run the real code on a small worker pool (each batched run sleeps), then emit in order
-	cases = append(append(fixedHistories(), fixedPubHistories()...), cases...)
+	cases = append(append(append(fixedHistories(), fixedPubHistories()...), fixedOpsHistories()...), cases...)
 	for i := range cases {
-		if cases[i].sel >= 5 {
+		if cases[i].sel == 8 {
+			cases[i].toks = cases[i].ops.tokens()
+		} else if cases[i].sel >= 5 {
 			cases[i].toks = cases[i].hist.tokens()
 		} else {
 			cases[i].toks = cases[i].in.tokens()
@@ -1036,6 +1050,8 @@ func gen(rng *vh.Rng, n int, emit func(id string, sel int, in []int64, kind stri
 			for i := range work {
 				if cases[i].sel == 5 {
 					histMemo.Store(key(cases[i].toks), computeHist(cases[i].toks))
+				} else if cases[i].sel == 8 {
+					opsMemo.Store(key(cases[i].toks), computeOps(cases[i].toks))
 				} else if cases[i].sel >= 6 {
 					pubMemo.Store(pubKey(cases[i].toks, cases[i].sel == 7), computePub(cases[i].toks, cases[i].sel == 7))
 				} else {
@@ -1052,6 +1068,10 @@ func gen(rng *vh.Rng, n int, emit func(id string, sel int, in []int64, kind stri
 	for _, c := range cases {
 		if c.sel == 5 {
 			emitHistory(c, emit)
+			continue
+		}
+		if c.sel == 8 {
+			emitOps(c, emit)
 			continue
 		}
 		if c.sel >= 6 {
